@@ -211,8 +211,10 @@ func handleObjectWithAssociation(metaBkt *bbolt.Bucket, diff *CountersDiff, curr
 			return logicerr.Wrap(apistatus.LockNonRegularObject{})
 		}
 
+		// An expired target is reported as expired by objectStatus, check
+		// its tombstone directly: LOCK must not revive a removed object.
 		st := objectStatus(metaCursor, target, currEpoch)
-		if st == statusTombstoned {
+		if st == statusTombstoned || inGarbage(metaCursor, target) == statusTombstoned {
 			return logicerr.Wrap(apistatus.ErrObjectAlreadyRemoved)
 		}
 
